@@ -408,6 +408,10 @@ func (e *effEngine) prov(fn *ssa.Function, v ssa.Value) pathSet {
 			for _, p := range e.prov(fn, t.X) {
 				q := p.add("[]")
 				if p.kind == rFresh {
+					if stored, ok := e.keyedStores(fn, t, p); ok {
+						out.addAll(stored)
+						continue
+					}
 					if stored, ok := st.freshFld[q.String()]; ok && len(stored) > 0 {
 						out.addAll(stored)
 						continue
@@ -463,6 +467,73 @@ func (e *effEngine) prov(fn *ssa.Function, v ssa.Value) pathSet {
 	delete(st.inProg, v)
 	st.provMemo[v] = out
 	return out
+}
+
+// keyedStores refines the flow-insensitive content of a map allocated in fn for one lookup m[K]
+// whose key K is the key variable of a range over a map (distinct in every iteration): an update
+// m[K] = x under the same K is read by the lookup only if it can execute before it without K being
+// redefined in between, i.e. on a path that does not pass K's defining block. Updates under any
+// other key value may alias and are all kept.
+func (e *effEngine) keyedStores(fn *ssa.Function, lk *ssa.Lookup, root apath) (pathSet, bool) {
+	kx, ok := lk.Index.(*ssa.Extract)
+	if !ok || kx.Index != 1 {
+		return nil, false
+	}
+	nx, ok := kx.Tuple.(*ssa.Next)
+	if !ok {
+		return nil, false
+	}
+	rg, ok := nx.Iter.(*ssa.Range)
+	if !ok {
+		return nil, false
+	}
+	if _, isMap := rg.X.Type().Underlying().(*types.Map); !isMap {
+		return nil, false
+	}
+	def := nx.Block()
+	out := pathSet{}
+	n := 0
+	for _, b := range fn.Blocks {
+		for i, in := range b.Instrs {
+			mu, ok := in.(*ssa.MapUpdate)
+			if !ok {
+				continue
+			}
+			same := false
+			for _, p := range e.prov(fn, mu.Map) {
+				if p.kind == rFresh && p.name == root.name && p.sels == root.sels {
+					same = true
+				}
+			}
+			if !same {
+				continue
+			}
+			n++
+			if mu.Key == ssa.Value(kx) {
+				reaches := false
+				if b == lk.Block() {
+					for j, in2 := range b.Instrs {
+						if in2 == ssa.Instruction(lk) {
+							reaches = i < j
+							break
+						}
+					}
+				} else if b == def || lk.Block() == def {
+					reaches = true // not separated by the key's definition: keep
+				} else {
+					reaches = reachesWithout(b, lk.Block(), def)
+				}
+				if !reaches {
+					continue
+				}
+			}
+			out.addAll(e.prov(fn, mu.Value))
+		}
+	}
+	if n == 0 {
+		return nil, false
+	}
+	return out, true
 }
 
 // load: provenance of the value stored at address a.
